@@ -51,6 +51,7 @@ RULE = ("random plurality (k winners), approval and super-majority contests with
         "patterns (8 encodings per candidate) of 2, 3 and 4 candidates.  non-trivial = at least one assertion and at "
         "least two cards of which one carries a truthy mark; distinct = distinct canonical input")
 EXHAUSTIVE = {"quick": False, "thorough": False}
+RULE += "; option stream (n/10 more cases, own generator, OPTIONS_AUDIT.md): use_style / enforce_rules left out where True, Contest.tally on a dict that also holds a sibling plurality contest (marked on many cards) and / or an IRV contest, find_margin_from_tally with the tally as its argument and a stale contest.tally"
 
 TOL = 1e-9
 TRUTHY = [True, 1, 5, "marked", "0", -1, True, 1]
